@@ -22,7 +22,8 @@ def model_check(run: Run, tier: str) -> None:
 
 def relevant(prop: str, clause: str, op: dict) -> bool:
     if prop == "C09":
-        return clause.startswith("C09_") or (op["sel"] > 0 and clause in ("C05_Valid", "C05_Shape"))
+        # "deeper selectors fail when the layer does not exist" is C09's own wording
+        return clause.startswith("C09_") or clause == "C08_Loud:no_layer" or (op["sel"] > 0 and clause in ("C05_Valid", "C05_Shape"))
     return clause.startswith(PREFIX[prop])
 
 
@@ -33,6 +34,10 @@ def check(prop: str, tier: str, seed: int) -> int:
     if prop == "C09":
         hists = [h for h in hists if any(st["op"]["sel"] > 0 for st in h["steps"])]
     cases, discards = edit.make_cases(hists, tier, seed)
+    if tier == "thorough" and prop != "C09":
+        sc = edit.suite_cases(len(cases) + 1)       # the edits the repository's own tests perform, judged like any other step
+        run.coverage["repository_suite_edit_calls"] = len(sc)
+        cases += sc
     edit.execute(cases)
     verdicts = edit.judge(cases, run)
     for c in cases:
